@@ -38,7 +38,7 @@ static uint64_t fingerprint(const OpResult& o, std::string* text = nullptr)
 
 static PlanOp gen_any_op(Rng& rng, bool thorough)
 {
-    std::vector<std::string> pk = keys_for({ "G1", "G2", "G3", "G4", "G5", "G6", "G7", "G8", "G9", "G10", "G11", "G12", "G13", "G14", "G15", "G16", "G17", "G18", "G19", "G20", "G21", "G22", "G23", "G24", "G25", "G27", "T1" });
+    std::vector<std::string> pk = keys_for({ "G1", "G2", "G3", "G4", "G5", "G6", "G7", "G8", "G9", "G10", "G11", "G12", "G13", "G14", "G15", "G16", "G17", "G18", "G19", "G20", "G21", "G22", "G23", "G24", "G25", "G27", "G28", "T1" });
     std::vector<std::string> rk = regex_keys();
     uint64_t k = rng.below(100);
     PlanOp op;
@@ -98,7 +98,7 @@ static Plan gen_c15_cold(uint64_t seed, int64_t index)
     Plan p;
     p.seed = seed; p.index = index; p.property = "C15"; p.mode = "cold_start";
     p.interleaved_first = true;
-    std::vector<std::string> pk = keys_for({ "G1", "G2", "G3", "G4", "G5", "G6", "G7", "G8", "G9", "G10", "G11", "G12", "G13", "G14", "G15", "G16", "G17", "G18", "G19", "G20", "G21", "G22", "G23", "G24", "G25", "G27", "T1" });
+    std::vector<std::string> pk = keys_for({ "G1", "G2", "G3", "G4", "G5", "G6", "G7", "G8", "G9", "G10", "G11", "G12", "G13", "G14", "G15", "G16", "G17", "G18", "G19", "G20", "G21", "G22", "G23", "G24", "G25", "G27", "G28", "T1" });
     std::vector<PlanOp> ops;
     for (int k = 0; k < 5; ++k)
     {
@@ -300,6 +300,14 @@ static std::vector<Violation> case_c15(const Plan& p, CaseCtx& cx)
             if (before[t][i] != after[t][i])
             {
                 vs.push_back(make_violation("C15", "result_depends_on_earlier_calls", who + ": alone before {" + tb[t][i] + "}, alone afterwards {" + ta[t][i] + "}", p));
+                return vs;
+            }
+            // 2b. the functors that ran belong to the parser object the call was made on (two objects of one C++ type differ
+            //     only in the state of their functor objects: a per-TYPE cache of the first object's functors is shared state)
+            if (o.rec.foreign_functor_calls > 0)
+            {
+                vs.push_back(make_violation("C15", "functors_of_another_parser_object_ran", who + ": " + std::to_string(o.rec.foreign_functor_calls) +
+                    " rule functor call(s) were made on functor objects that belong to the OTHER instance of this parser type (" + (o.op.heap ? "called on the run-time built instance" : "called on the constexpr instance") + ")", p));
                 return vs;
             }
             // 3. object image
